@@ -145,26 +145,26 @@ func impl(sta any, f []string) string {
 // short names of the parse error messages, for classes and tags
 var msgSlug = map[string]string{
 	"should be form": "form",
-	"bad redir sign, should be '<', '>', '>>' or '<>'":                         "redir-sign",
-	"should be a composite term representing fd":                               "fd",
-	"should be a composite term representing filename":                         "filename",
-	"should be spaced":                                                         "array",
-	"string not terminated":                                                    "string-unterminated",
-	"invalid escape sequence":                                                  "escape",
-	"invalid escape sequence, should be octal digit":                           "escape-oct",
-	"invalid octal escape sequence, should be below 256":                       "escape-oct-overflow",
-	"invalid escape sequence, should be hex digit":                             "escape-hex",
-	"invalid control sequence, should be a codepoint between 0x3F and 0x5F":    "escape-control",
-	"should be single-quoted string, double-quoted string or bareword":         "primary",
-	"should be variable name":                                                  "variable-name",
-	"should be ']'":                                                            "rbracket",
-	"should be '}'":                                                            "rbrace",
-	"should be ',' or '}'":                                                     "braced-sep-or-rbrace",
-	"should be ')'":                                                            "rparen",
-	"should be compound":                                                       "compound",
-	"should be '|'":                                                            "pipe",
-	"cannot contain both list elements and map pairs":                          "elements-and-pairs",
-	"should be newline":                                                        "continuation-newline",
+	"bad redir sign, should be '<', '>', '>>' or '<>'": "redir-sign",
+	"should be a composite term representing fd":       "fd",
+	"should be a composite term representing filename": "filename",
+	"should be spaced":                                                      "array",
+	"string not terminated":                                                 "string-unterminated",
+	"invalid escape sequence":                                               "escape",
+	"invalid escape sequence, should be octal digit":                        "escape-oct",
+	"invalid octal escape sequence, should be below 256":                    "escape-oct-overflow",
+	"invalid escape sequence, should be hex digit":                          "escape-hex",
+	"invalid control sequence, should be a codepoint between 0x3F and 0x5F": "escape-control",
+	"should be single-quoted string, double-quoted string or bareword":      "primary",
+	"should be variable name":                                               "variable-name",
+	"should be ']'":                                                         "rbracket",
+	"should be '}'":                                                         "rbrace",
+	"should be ',' or '}'":                                                  "braced-sep-or-rbrace",
+	"should be ')'":                                                         "rparen",
+	"should be compound":                                                    "compound",
+	"should be '|'":                                                         "pipe",
+	"cannot contain both list elements and map pairs":                       "elements-and-pairs",
+	"should be newline":                                                     "continuation-newline",
 }
 
 func slug(m string) string {
